@@ -63,11 +63,13 @@ func (c Command) ExecuteIQ(ctx context.Context, iq stanza.IQ, payload xml.TokenR
 	if err != nil {
 		return resp, nil, err
 	}
+	// Keep our own reference to the response: the error returns below set the
+	// named result to nil before the deferred function runs.
+	respCloser := respPayload
 	defer func() {
-		respPayload := respPayload
-		if err != nil && respPayload != nil {
+		if err != nil && respCloser != nil {
 			/* #nosec */
-			respPayload.Close()
+			respCloser.Close()
 		}
 	}()
 	var t xml.Token
